@@ -15,6 +15,11 @@ MUTANTS = {"sigvals_unchecked": "MutationRejected", "thr_ge_0": "MutationRejecte
 DOC_FAMILIES = {"accept", "TypeError", "ValueError", "SignatureError", "MetadataVerificationError", "UnknownRoleError", "CCT_Error"}
 
 
+VALID_ROOT = {"signatures": {}, "signed": {"type": "root", "version": 1, "metadata_spec_version": "0.6.0", "timestamp": "2024-01-01T00:00:00Z",
+                                           "expiration": "2030-01-01T00:00:00Z",
+                                           "delegations": {"root": {"pubkeys": [schema_gamma.KA], "threshold": 1}, "key_mgr": {"pubkeys": [schema_gamma.KB], "threshold": 1}}}}
+
+
 def desc(case):
     d = case["doc"]
     return ", ".join(f"{f}={d[f]}" for f in case["muts"]) or "unmutated valid document"
@@ -64,6 +69,9 @@ def check(run):
             # anything the checker accepts must not make a verifier fail internally, in any argument position
             if fam == "accept":
                 for name, fn in (("verify_root(doc, doc)", lambda: auth.verify_root(env, env)),
+                                 ("verify_root(valid root, doc)", lambda: auth.verify_root(copy.deepcopy(VALID_ROOT), env)),
+                                 ("verify_root(doc, valid root)", lambda: auth.verify_root(env, copy.deepcopy(VALID_ROOT))),
+                                 ("verify_delegation('key_mgr', doc, valid root)", lambda: auth.verify_delegation("key_mgr", env, copy.deepcopy(VALID_ROOT))),
                                  ("verify_delegation('root', doc, doc)", lambda: auth.verify_delegation("root", env, env)),
                                  ("verify_delegation('key_mgr', doc, doc)", lambda: auth.verify_delegation("key_mgr", env, env)),
                                  ("verify_delegation('nope', doc, doc, gpg=True)", lambda: auth.verify_delegation("nope", env, env, gpg=True)),
